@@ -80,12 +80,30 @@ class Runner:
                 out.append(("rule", e))
             except Exception as e:  # noqa
                 out.append(("EXC", e))
+        if out[1][0] == "errs":
+            # collecting into a list that already holds entries (here: the first run's own errors) must report the same
+            first = out[1][1]
+            again = list(first)
+            try:
+                build.validate_under(self.real, self.parents[1], again)
+                out.append(("again", again[len(first):] if again[:len(first)] == first else None))
+            except Exception as e:  # noqa
+                out.append(("EXC", e))
         return out
 
 
 def judge(rn, w, out, specified, member):
     case = {"rule": rn, "word": list(w)}
-    ff, cc = out
+    ff, cc = out[0], out[1]
+    if len(out) > 2:
+        ag = out[2]
+        if ag[0] == "EXC":
+            raise Violation("collecting-raised:" + type(ag[1]).__name__, f"second collecting run: {ag[1]}", case)
+        if ag[1] is None or [(e[0], e[1]) for e in ag[1]] != [(e[0], e[1]) for e in cc[1]]:
+            raise Violation("collecting-depends-on-prior-list-content",
+                            f"validating into a list that already holds entries appended "
+                            f"{None if ag[1] is None else [e[0].name for e in ag[1]]}, a fresh list gets "
+                            f"{[e[0].name for e in cc[1]]}", case)
     if ff[0] == "EXC":
         raise Violation("failfast-other-exception:" + type(ff[1]).__name__,
                         f"{type(ff[1]).__name__}: {ff[1]} (member={member})", case)
